@@ -28,6 +28,31 @@ CHECKS = {
     ),
 }
 
+CHECKS["C14"] = dict(
+    engine="STORE",
+    technique="deterministic simulation: seeded mutation histories over the real LpgStore with per-run operation subsets and adjacency-threshold-crossing hub runs; after every step every access path is compared with a brute-force reference graph; delta-debugged replay",
+    category="exploration",
+    text="Seeded search over histories of every LpgStore mutator (20k quick / 1M thorough), with and without backward adjacency; after each step label lookups, adjacency in both directions, degrees, indexed vs scanned property lookups, range lookups, one-directional zone-map pruning, counts, enumeration and refreshed statistics are compared with a map-based reference graph.",
+    design_ref="DESIGN.md §3 C14",
+    note="Trusted: RefGraph (ordered maps, brute force). Writes are addressed to live entities; nodes with edges are deleted via delete_node_edges+delete_node as the store documents. Cross-type int/float ranges and ensure_statistics_fresh are not judged.",
+)
+CHECKS["C05"] = dict(
+    engine="DISK",
+    technique="deterministic simulation: persistent GrafeoDB on a tapped tmpfs directory with simulated clock; seeded histories of all mutating API calls, checkpoints, rotations, syncs, clock jumps and clean close/reopen cycles under per-run durability mode, log-size limit and BufWriter capacity; reopened dump compared with a reference graph",
+    category="fault_enumeration",
+    text="Seeded search (4k quick / 200k thorough) over operation sequences with 1..n clean close/reopen cycles, all four durability modes, log-size limits from 64 B (rotation after every record) to the default, BufWriter capacities from 1 B; the dump of the reopened database must equal the reference model after all operations and new identifiers must not collide with live ones.",
+    design_ref="DESIGN.md §3 C05",
+    note="No faults in this check (C06 injects them). AsyncWalManager and the AdaptiveFlusher thread are not run (not reachable from GrafeoDB); the flusher is modelled as generated wal.sync() calls.",
+)
+CHECKS["C06"] = dict(
+    engine="DISK",
+    technique="deterministic simulation with fault injection: crash images computed from the recorded disk-event log of the WAL (every crash point incl. inside close/checkpoint/rotation; un-synced tails kept/lost/torn; un-synced files absent; rename durable or not), single-bit flips of log files, and continuation after every fault; recovered dump must equal the reference model after some prefix p with floor <= p <= issued",
+    category="fault_enumeration",
+    text="Per execution ~6 (quick) / 12 (thorough) crash images per incarnation are materialised on tmpfs, opened with the real recovery code and judged; crashes that the history continues from, bit flips and clean reopens are further generated operations. Floors come both from the bytes below each file's last fsync and from what sync/checkpoint/close promised by returning. Open must succeed and never panic.",
+    design_ref="DESIGN.md §3 C06",
+    note="ext4-like directory-entry durability; atomic rename with sampled durability; op-granular prefixes; I/O errors not injected; checkpoint.meta is not bit-flipped. Several genuine defects of the pinned tree are listed in known_findings.jsonl and narrow what can still be observed behind them (see evidence.known_findings_seen).",
+)
+
 NOT_APPLICABLE = {
     "C08": "pure function of (graph, query text): no schedule, clock, I/O, fault or shared state in the statement or its quantifier; differential/reference-interpreter testing is the fitting family, not simulation",
     "C09": "pure function of (graph, statistics state, query, optimizer switches); stale statistics are an input, not a schedule",
@@ -53,6 +78,8 @@ manifest = {
     },
     "engines": [
         {"name": "TXM", "path": "sim/src/eng_txm.rs", "serves_properties": ["C03", "C04"], "kind_free_text": "single-threaded history simulator over TransactionManager with a reference model"},
+        {"name": "STORE", "path": "sim/src/eng_store.rs", "serves_properties": ["C14"], "kind_free_text": "single-store history simulator over LpgStore with a brute-force reference graph"},
+        {"name": "DISK", "path": "sim/src/eng_disk.rs", "serves_properties": ["C05", "C06"], "kind_free_text": "persistent GrafeoDB over a tapped tmpfs directory + simulated clock; crash images computed from the disk-event log"},
     ],
     "checks": [],
     "notes": "Deterministic simulation with fault injection. One binary (sim/), one PRNG stream per run derived from VERIF_SEED (default 1). Exit 2 = harness error. Known findings: known_findings.jsonl.",
